@@ -186,6 +186,10 @@ var extOffers = [][]string{
 	{`"permessage-deflate"`},
 	{"foo bar, permessage-deflate"},
 	{"permessage-deflate ; client_max_window_bits , other"},
+	{`x-ext; note="a\", permessage-deflate, y; k=\""`},
+	{`foo; a="\\", permessage-deflate`},
+	{`foo; a="x\"y", bar`},
+	{`foo; a="permessage-deflate\"", bar; b="c"`},
 }
 
 func genKeyOK(t *rapid.T, ok bool) []string {
@@ -455,6 +459,9 @@ func checkC12(c ServerHSCase, o *Obs) error {
 		if len(tr.Wrote) != 0 {
 			return fmt.Errorf("invalid handshake: %d bytes were written to the raw connection", len(tr.Wrote))
 		}
+		if tr.Closed != 0 {
+			return errors.New("invalid handshake: the connection was closed although it was never hijacked (it belongs to net/http)")
+		}
 		if v.unspec {
 			return nil // which status is owed is only stated for requests with exactly one fault
 		}
@@ -552,6 +559,13 @@ func checkC12(c ServerHSCase, o *Obs) error {
 		}
 		if v.extClean && !v.pmdOffered {
 			return fmt.Errorf("permessage-deflate announced (%q) although the client did not offer it (offer: %q)", ann, c.Req.Ext)
+		}
+		lenient := false
+		for _, n := range wsref.ExtNamesLenient(c.Req.Ext) {
+			lenient = lenient || n == "permessage-deflate"
+		}
+		if !lenient {
+			return fmt.Errorf("permessage-deflate announced (%q) although no extension of that name is offered - the name only occurs inside a quoted-string (offer: %q)", ann, c.Req.Ext)
 		}
 		if len(ann) > 1 {
 			return fmt.Errorf("several extension headers in the response: %q", ann)
